@@ -36,6 +36,9 @@ pub struct S {
     pub bcasts: Vec<(u8, u32)>,
     pub mailbox: Mailbox,
     pub pid: &'static str,
+    /// the root uses the recreate strategy and is restarted once before the broadcasts: a restart
+    /// is not a termination, the children stay
+    pub restart_root: bool,
 }
 
 const PANIC_MSG: u32 = 700;
@@ -81,14 +84,18 @@ impl Scene for S {
             crate::world::W.with(|w| w.borrow_mut().roles[n.role as usize].started_actions = actions);
             let cfg = SpawnCfg {
                 mailbox: self.mailbox,
-                strat: Strat::Default,
+                strat: if n.role == 0 && self.restart_root { Strat::Recreate } else { Strat::Default },
                 timeout: if n.role == 0 && matches!(self.cause, Cause::TimeoutFail(_)) { Some((2, true)) } else { None },
             };
             addrs[n.role as usize] = Some(spawn_probe(n.role, cfg).detach());
         }
         // driver: broadcasts, then the terminating action on the root
         let root = addrs[0].clone().unwrap();
+        crate::world::W.with(|w| w.borrow_mut().default_role[0] = 0);
         let mut ops: Vec<Op> = vec![];
+        if self.restart_root {
+            ops.push(Op::Restart(H::Addr(0)));
+        }
         for (k, (ty, id)) in self.bcasts.iter().enumerate() {
             // in trees with a dying child the second broadcast comes a tick later (the child is gone by then)
             if k == 1 && self.nodes.iter().any(|n| n.outside_stops) {
@@ -327,8 +334,17 @@ fn cases(tier: Tier) -> Vec<Case> {
                         desc: format!("children tree={} cause={:?} bcasts={:?} mailbox={}", tree_name(tree), cause, bc, mb.name()),
                         exec: ExecCfg { horizon: 30, cancel: if let Cause::Cancel(j) = cause { Some((root_spawn_index(tree), j)) } else { None }, ..ExecCfg::default() },
                         bound: if tree.len() >= 4 { Some(if tier == Tier::Quick { 3 } else { 5 }) } else if big { Some(if tier == Tier::Quick { 4 } else { 7 }) } else { None },
-                        scene: Box::new(S { nodes: tree.clone(), cause, bcasts: bc.clone(), mailbox: mb, pid: "C16" }),
+                        scene: Box::new(S { nodes: tree.clone(), cause, bcasts: bc.clone(), mailbox: mb, pid: "C16", restart_root: false }),
                     });
+                    // the same with a restart of the root first
+                    if matches!(cause, Cause::StopClient | Cause::LastDrop | Cause::HandlerPanic(_)) && tree.len() <= 3 && !bc.is_empty() {
+                        v.push(Case {
+                            desc: format!("children [root restarted first] tree={} cause={:?} bcasts={:?} mailbox={}", tree_name(tree), cause, bc, mb.name()),
+                            exec: ExecCfg { horizon: 30, ..ExecCfg::default() },
+                            bound: if big { Some(if tier == Tier::Quick { 4 } else { 7 }) } else { None },
+                            scene: Box::new(S { nodes: tree.clone(), cause, bcasts: bc.clone(), mailbox: mb, pid: "C16", restart_root: true }),
+                        });
+                    }
                 }
             }
         }
